@@ -459,6 +459,13 @@ def _verdict(op, xs, out):
         if det4(A) == 0:
             return "skip"
         need(out == [1 if is_hnf_fullrank(A) else 0], "is_hnf answer wrong; expected %d" % is_hnf_fullrank(A))
+    elif op == "m.gcd":
+        A, _ = take_mat(xs, 0)
+        g = 0
+        for r in A:
+            for x in r:
+                g = gcd(g, abs(x))
+        need(out == [g], "ibz_mat_4x4_gcd is not the (non-negative) gcd of all 16 entries; expected %d" % g)
     elif op in ("h.core", "h.mod"):
         if op == "h.core":
             cols = [[xs[8 * i + h] for i in range(4)] for h in range(8)]
